@@ -436,7 +436,8 @@ func parseRESP(r *bufio.Reader) ([][]byte, error) {
 		if n < 0 {
 			return nil, nil
 		}
-		out := make([][]byte, 0, n)
+		// n is client-declared: never reserve more than a bounded number of slots up front.
+		out := make([][]byte, 0, min(n, maxRESPPrealloc))
 		for range n {
 			b, err := r.ReadByte()
 			if err != nil {
@@ -457,8 +458,8 @@ func parseRESP(r *bufio.Reader) ([][]byte, error) {
 				out = append(out, nil)
 				continue
 			}
-			buf := make([]byte, l)
-			if _, err := io.ReadFull(r, buf); err != nil {
+			buf, err := readBulk(r, l)
+			if err != nil {
 				return nil, err
 			}
 			if err := expectCRLF(r); err != nil {
@@ -485,6 +486,27 @@ func parseRESP(r *bufio.Reader) ([][]byte, error) {
 		}
 		return out, nil
 	}
+}
+
+const (
+	// maxRESPPrealloc bounds the argument slots reserved from a declared array length.
+	maxRESPPrealloc = 1024
+	// respBulkChunk is the step in which a declared bulk length is read, so memory
+	// grows with the bytes actually received rather than with the declared length.
+	respBulkChunk = 64 << 10
+)
+
+// readBulk reads a bulk string of the declared length l in bounded chunks.
+func readBulk(r *bufio.Reader, l int) ([]byte, error) {
+	buf := make([]byte, 0, min(l, respBulkChunk))
+	for len(buf) < l {
+		start := len(buf)
+		buf = append(buf, make([]byte, min(l-start, respBulkChunk))...)
+		if _, err := io.ReadFull(r, buf[start:]); err != nil {
+			return nil, err
+		}
+	}
+	return buf, nil
 }
 
 func readLine(r *bufio.Reader) (string, error) {
